@@ -17,6 +17,10 @@ import ParamVerif.Selector.Lemmas
 
 namespace ParamVerif.Selector
 
+/- `str` is Python's `str` on objects: a parameter of the model; the theorems assume only that it is
+injective on objects (`hstr`).  The driver instantiates it with `pyStr`. -/
+variable (str : Obj → Key)
+
 /-- The consistency the property asks for: objects unique; if a name mapping
 exists it lists exactly the objects, in the same order, under unique keys. -/
 def Inv (s : St) : Prop :=
@@ -49,9 +53,9 @@ instance (s : St) (op : Op) : Decidable (Op.ok s op) := by
 /-- every operation of the sequence is style-consistent in the state it is applied to -/
 def okSeq : St → List Op → Prop
   | _, [] => True
-  | s, op :: ops => Op.ok s op ∧ okSeq (step s op).1 ops
+  | s, op :: ops => Op.ok s op ∧ okSeq (step str s op).1 ops
 
-instance okSeqDec : (s : St) → (ops : List Op) → Decidable (okSeq s ops)
+instance okSeqDec : (s : St) → (ops : List Op) → Decidable (okSeq str s ops)
   | _, [] => isTrue trivial
   | s, op :: ops => by unfold okSeq; exact @instDecidableAnd _ _ _ (okSeqDec _ ops)
 
@@ -107,8 +111,8 @@ theorem setKeyCore_ok {s : St} {k : Key} {o : Obj}
 theorem convertNames_dictStyle {s : St} (hobjs : s.objs.Nodup)
     (hinv : s.names = [] ∨ (s.names.map (·.2) = s.objs ∧ (s.names.map (·.1)).Nodup))
     (hstyle : s.names ≠ [] ∨ s.objs = []) :
-    (convertNames s).objs = s.objs ∧ (convertNames s).checkOnSet = s.checkOnSet ∧
-    (convertNames s).names.map (·.2) = s.objs ∧ ((convertNames s).names.map (·.1)).Nodup := by
+    (convertNames str s).objs = s.objs ∧ (convertNames str s).checkOnSet = s.checkOnSet ∧
+    (convertNames str s).names.map (·.2) = s.objs ∧ ((convertNames str s).names.map (·.1)).Nodup := by
   unfold convertNames
   split
   · rename_i h
@@ -125,21 +129,21 @@ theorem convertNames_dictStyle {s : St} (hobjs : s.objs.Nodup)
 theorem updateCore_inv : ∀ (kvs : List (Key × Obj)) (s s' : St),
     s.objs.Nodup → s.names.map (·.2) = s.objs → (s.names.map (·.1)).Nodup →
     (kvs.map (·.2)).Nodup → (∀ kv ∈ kvs, kv.2 ∉ s.objs) →
-    updateCore s kvs = (s', none) →
+    updateCore str s kvs = (s', none) →
     s'.objs.Nodup ∧ s'.names.map (·.2) = s'.objs ∧ (s'.names.map (·.1)).Nodup
       ∧ s'.checkOnSet = s.checkOnSet
   | [], s, s', h1, h2, h3, _, _, h => by
     simp only [updateCore, Prod.mk.injEq, and_true] at h; subst h; exact ⟨h1, h2, h3, rfl⟩
   | (k, o) :: kvs, s, s', h1, h2, h3, hnd, hfresh, h => by
     simp only [updateCore] at h
-    have hc := convertNames_dictStyle h1 (Or.inr ⟨h2, h3⟩)
+    have hc := convertNames_dictStyle str h1 (Or.inr ⟨h2, h3⟩)
       (by by_cases hn : s.names = []
           · right; rw [← h2, hn]; rfl
           · left; exact hn)
     obtain ⟨c1, c2, c3, c4⟩ := hc
     split at h
     · rename_i s1 hs1
-      have ho : o ∉ (convertNames s).objs := by rw [c1]; exact hfresh (k, o) (by simp)
+      have ho : o ∉ (convertNames str s).objs := by rw [c1]; exact hfresh (k, o) (by simp)
       obtain ⟨i1, i2, i3, _, i5, i6, _⟩ :=
         setKeyCore_inv (by rw [c1]; exact h1) (by rw [c1]; exact c3) c4 ho hs1
       simp only [List.map_cons, List.nodup_cons] at hnd
@@ -154,19 +158,19 @@ theorem updateCore_inv : ∀ (kvs : List (Key × Obj)) (s s' : St),
 theorem updateCore_ok : ∀ (kvs : List (Key × Obj)) (s : St),
     s.objs.Nodup → s.names.map (·.2) = s.objs → (s.names.map (·.1)).Nodup →
     (kvs.map (·.2)).Nodup → (∀ kv ∈ kvs, kv.2 ∉ s.objs) →
-    ∃ s', updateCore s kvs = (s', none)
+    ∃ s', updateCore str s kvs = (s', none)
   | [], s, _, _, _, _, _ => ⟨s, rfl⟩
   | (k, o) :: kvs, s, h1, h2, h3, hnd, hfresh => by
     simp only [updateCore]
-    have hc := convertNames_dictStyle h1 (Or.inr ⟨h2, h3⟩)
+    have hc := convertNames_dictStyle str h1 (Or.inr ⟨h2, h3⟩)
       (by by_cases hn : s.names = []
           · right; rw [← h2, hn]; rfl
           · left; exact hn)
     obtain ⟨c1, c2, c3, c4⟩ := hc
-    obtain ⟨s1, hs1⟩ := setKeyCore_ok (s := convertNames s) (k := k) (o := o)
+    obtain ⟨s1, hs1⟩ := setKeyCore_ok (s := convertNames str s) (k := k) (o := o)
       (by rw [c1]; exact h1) (by rw [c1]; exact c3)
     rw [hs1]
-    have ho : o ∉ (convertNames s).objs := by rw [c1]; exact hfresh (k, o) (by simp)
+    have ho : o ∉ (convertNames str s).objs := by rw [c1]; exact hfresh (k, o) (by simp)
     obtain ⟨i1, i2, i3, _, _, i6, _⟩ :=
       setKeyCore_inv (by rw [c1]; exact h1) (by rw [c1]; exact c3) c4 ho hs1
     simp only [List.map_cons, List.nodup_cons] at hnd
@@ -179,8 +183,8 @@ theorem updateCore_ok : ∀ (kvs : List (Key × Obj)) (s : St),
 /-! ## Property theorems -/
 
 /-- **C18 (one step).**  Every style-consistent operation preserves consistency. -/
-theorem step_preserves_inv (s : St) (op : Op) (h : Inv s) (hok : Op.ok s op) :
-    Inv (step s op).1 := by
+theorem step_preserves_inv (hstr : ∀ a b, str a = str b → a = b) (s : St) (op : Op) (h : Inv s) (hok : Op.ok s op) :
+    Inv (step str s op).1 := by
   obtain ⟨hnd, hn⟩ := h
   cases op with
   | setIdx i o =>
@@ -191,7 +195,7 @@ theorem step_preserves_inv (s : St) (op : Op) (h : Inv s) (hok : Op.ok s op) :
     · exact ⟨hnd, hn⟩
   | setKey k o =>
     obtain ⟨h1, h2⟩ := hok
-    obtain ⟨c1, c2, c3, c4⟩ := convertNames_dictStyle hnd hn h1
+    obtain ⟨c1, c2, c3, c4⟩ := convertNames_dictStyle str hnd hn h1
     simp only [step]
     split
     · rename_i s' hs'
@@ -220,20 +224,20 @@ theorem step_preserves_inv (s : St) (op : Op) (h : Inv s) (hok : Op.ok s op) :
     obtain ⟨h1, h2, h3⟩ := hok
     simp only [step]
     -- the state after the unconditional names conversion
-    have key : ∀ s0 : St, s0 = (if s.names = [] then { s with names := namedObjs s.objs [] } else s) →
+    have key : ∀ s0 : St, s0 = (if s.names = [] then { s with names := namedObjs str s.objs [] } else s) →
         s0.objs = s.objs ∧ s0.names.map (·.2) = s.objs ∧ (s0.names.map (·.1)).Nodup := by
       intro s0 e
       subst e
       split
-      · exact ⟨rfl, namedObjs_nil_vals hnd, namedObjs_nil_keys_nodup hnd⟩
+      · exact ⟨rfl, namedObjs_nil_vals str hstr hnd, namedObjs_nil_keys_nodup str hstr hnd⟩
       · rename_i hne
         rcases hn with h' | h'
         · exact absurd h' hne
         · exact ⟨rfl, h'.1, h'.2⟩
     obtain ⟨k1, k2, k3⟩ := key _ rfl
-    obtain ⟨s', hs'⟩ := updateCore_ok kvs _ (by rw [k1]; exact hnd)
+    obtain ⟨s', hs'⟩ := updateCore_ok str kvs _ (by rw [k1]; exact hnd)
         (by rw [k1]; exact k2) k3 h2 (by rw [k1]; exact h3)
-    obtain ⟨i1, i2, i3, _⟩ := updateCore_inv kvs _ s' (by rw [k1]; exact hnd)
+    obtain ⟨i1, i2, i3, _⟩ := updateCore_inv str kvs _ s' (by rw [k1]; exact hnd)
         (by rw [k1]; exact k2) k3 h2 (by rw [k1]; exact h3) hs'
     rw [hs']
     exact ⟨i1, Or.inr ⟨i2, i3⟩⟩
@@ -324,14 +328,14 @@ theorem step_preserves_inv (s : St) (op : Op) (h : Inv s) (hok : Op.ok s op) :
 
 /-- **C18 (all histories).**  After *any* sequence of style-consistent
 mutations and value assignments the Selector is consistent. -/
-theorem run_preserves_inv (ops : List Op) (s : St) (h : Inv s) (hok : okSeq s ops) :
-    Inv (run s ops) := by
+theorem run_preserves_inv (hstr : ∀ a b, str a = str b → a = b) (ops : List Op) (s : St) (h : Inv s) (hok : okSeq str s ops) :
+    Inv (run str s ops) := by
   induction ops generalizing s with
   | nil => simpa [run] using h
   | cons op ops ih =>
     obtain ⟨h1, h2⟩ := hok
     simp only [run, List.foldl_cons]
-    exact ih _ (step_preserves_inv s op h h1) h2
+    exact ih _ (step_preserves_inv str hstr s op h h1) h2
 
 /-- A freshly declared Selector (list or dict of unique objects) is consistent. -/
 theorem declared_list_inv (os : List Obj) (c : Bool) (h : os.Nodup) :
@@ -340,20 +344,20 @@ theorem declared_list_inv (os : List Obj) (c : Bool) (h : os.Nodup) :
 /-- **C18 (views agree).**  In a consistent state the list view, `items()`,
 `get_range()` and the accepted values describe the same objects in the same
 order; and with a name mapping, `items()` and `get_range()` *are* that mapping. -/
-theorem views_agree (s : St) (h : Inv s) :
-    (itemsView s).map (·.2) = listView s ∧
-    (rangeView s).map (·.2) = listView s ∧
+theorem views_agree (hstr : ∀ a b, str a = str b → a = b) (s : St) (h : Inv s) :
+    (itemsView str s).map (·.2) = listView s ∧
+    (rangeView str s).map (·.2) = listView s ∧
     (∀ v, accepts s v = true ↔ v ∈ listView s) ∧
-    (s.names ≠ [] → itemsView s = s.names ∧ rangeView s = s.names) := by
+    (s.names ≠ [] → itemsView str s = s.names ∧ rangeView str s = s.names) := by
   obtain ⟨hnd, hn⟩ := h
   -- get_range with a consistent names dictionary returns that dictionary
   have range_names : ∀ (d : Dict), (d.map (·.1)).Nodup → (d.map (·.2)).Nodup →
-      namedObjs (d.map (·.2)) d = d := by
+      namedObjs str (d.map (·.2)) d = d := by
     intro d hk hv
     unfold namedObjs
     -- generalise: fold over a suffix with the prefix accumulated
     have aux : ∀ (suf pre : Dict), d = pre ++ suf →
-        (suf.map (·.2)).foldl (fun acc o => Dict.set acc (nameOf d o) o) pre = d := by
+        (suf.map (·.2)).foldl (fun acc o => Dict.set acc (nameOf str d o) o) pre = d := by
       intro suf
       induction suf with
       | nil => intro pre e; simpa using e.symm
@@ -361,7 +365,7 @@ theorem views_agree (s : St) (h : Inv s) :
         intro pre e
         obtain ⟨k, v⟩ := kv
         simp only [List.map_cons, List.foldl_cons]
-        have hname : nameOf d v = k := by
+        have hname : nameOf str d v = k := by
           unfold nameOf
           have hfind : d.reverse.find? (fun kv => kv.2 = v) = some (k, v) := by
             have hmem : (k, v) ∈ d.reverse := by rw [e]; simp
@@ -396,10 +400,10 @@ theorem views_agree (s : St) (h : Inv s) :
       rcases hn with h' | h'
       · exact absurd h' hne
       · exact h'.1
-    · exact namedObjs_nil_vals hnd
+    · exact namedObjs_nil_vals str hstr hnd
   · unfold rangeView listView
     rcases hn with h' | h'
-    · rw [h']; exact namedObjs_nil_vals hnd
+    · rw [h']; exact namedObjs_nil_vals str hstr hnd
     · have hvn : (s.names.map (·.2)).Nodup := h'.1 ▸ hnd
       have := range_names s.names h'.2 hvn
       rw [h'.1] at this
@@ -418,10 +422,10 @@ object that was at position `i`, that object is gone from every view, and all
 other objects keep their order. -/
 theorem popIdx_returns_removed (s : St) (i : Int) (n : Nat) (h : Inv s)
     (hn : normIdx s.objs.length i = some n) :
-    (step s (.popIdx i)).2.ret = s.objs[n]? ∧
-    (step s (.popIdx i)).2.err = none ∧
-    (step s (.popIdx i)).1.objs = s.objs.eraseIdx n ∧
-    (∀ o, (step s (.popIdx i)).2.ret = some o → o ∉ (step s (.popIdx i)).1.objs) := by
+    (step str s (.popIdx i)).2.ret = s.objs[n]? ∧
+    (step str s (.popIdx i)).2.err = none ∧
+    (step str s (.popIdx i)).1.objs = s.objs.eraseIdx n ∧
+    (∀ o, (step str s (.popIdx i)).2.ret = some o → o ∉ (step str s (.popIdx i)).1.objs) := by
   have hlt : n < s.objs.length := normIdx_lt hn
   simp only [step, hn]
   refine ⟨by simp [List.getD, List.getElem?_eq_getElem hlt], by simp, by simp, ?_⟩
@@ -434,8 +438,8 @@ theorem popIdx_returns_removed (s : St) (i : Int) (n : Nat) (h : Inv s)
 /-- `pop(key)` returns the object stored under the key and removes it. -/
 theorem popKey_returns_removed (s : St) (k : Key) (o : Obj) (h : Inv s)
     (hne : s.names ≠ []) (hg : Dict.get? s.names k = some o) :
-    (step s (.popKey k)).2.ret = some o ∧ (step s (.popKey k)).2.err = none ∧
-    o ∉ (step s (.popKey k)).1.objs ∧ Dict.get? (step s (.popKey k)).1.names k = none := by
+    (step str s (.popKey k)).2.ret = some o ∧ (step str s (.popKey k)).2.err = none ∧
+    o ∉ (step str s (.popKey k)).1.objs ∧ Dict.get? (step str s (.popKey k)).1.names k = none := by
   obtain ⟨hnd, hn⟩ := h
   rcases hn with h' | h'
   · exact absurd h' hne
@@ -473,42 +477,42 @@ theorem popKey_returns_removed (s : St) (k : Key) (o : Obj) (h : Inv s)
 raises exactly one `objects` notification, a failing one none, and a value
 assignment none. -/
 theorem one_notification_per_mutation (s : St) (op : Op) :
-    ((step s op).2.err = none → (∀ v, op ≠ .assign v) → (step s op).2.notifs.length = 1) ∧
-    ((step s op).2.err ≠ none → (step s op).2.notifs = []) ∧
-    (∀ v, op = .assign v → (step s op).2.notifs = []) := by
+    ((step str s op).2.err = none → (∀ v, op ≠ .assign v) → (step str s op).2.notifs.length = 1) ∧
+    ((step str s op).2.err ≠ none → (step str s op).2.notifs = []) ∧
+    (∀ v, op = .assign v → (step str s op).2.notifs = []) := by
   cases op <;> simp only [step] <;> (repeat' split) <;> simp_all
 
 /-- the notification carries the view before and after the call -/
 theorem notification_payload (s : St) (op : Op) (old new : Payload)
-    (h : (old, new) ∈ (step s op).2.notifs) (hl : ∀ os, op ≠ .replaceList os)
+    (h : (old, new) ∈ (step str s op).2.notifs) (hl : ∀ os, op ≠ .replaceList os)
     (hd : ∀ kvs, op ≠ .replaceDict kvs) (hsk : ∀ k o, op ≠ .setKey k o) (hu : ∀ kvs, op ≠ .update kvs) :
-    old = payloadOld s ∧ new = payloadNew (step s op).1 := by
+    old = payloadOld s ∧ new = payloadNew (step str s op).1 := by
   cases op <;> simp only [step] at h ⊢ <;> (repeat' split) <;> simp_all
 
 /-- **C18 (membership uses the current objects).**  With `check_on_set` a value
 assignment succeeds iff the value is among the *current* objects, and never
 changes them. -/
 theorem assign_checks_current (s : St) (v : Obj) (hc : s.checkOnSet = true) :
-    ((step s (.assign v)).2.err = none ↔ v ∈ listView s) ∧ (step s (.assign v)).1 = s := by
+    ((step str s (.assign v)).2.err = none ↔ v ∈ listView s) ∧ (step str s (.assign v)).1 = s := by
   simp only [step, hc, if_true, listView]
   split <;> simp_all
 
 /-- after any history, acceptance is membership in the objects the history produced -/
-theorem assign_after_history (s : St) (ops : List Op) (v : Obj) (hc : (run s ops).checkOnSet = true) :
-    (step (run s ops) (.assign v)).2.err = none ↔ v ∈ listView (run s ops) :=
-  (assign_checks_current _ v hc).1
+theorem assign_after_history (s : St) (ops : List Op) (v : Obj) (hc : (run str s ops).checkOnSet = true) :
+    (step str (run str s ops) (.assign v)).2.err = none ↔ v ∈ listView (run str s ops) :=
+  (assign_checks_current str _ v hc).1
 
 /-! ### Non-vacuity: concrete states and histories that meet the hypotheses -/
 
 example : Inv { objs := [1, 2, 3], names := [("a", 1), ("b", 2), ("c", 3)] } := by decide
-example : okSeq { objs := [1, 2, 3], names := [("a", 1), ("b", 2), ("c", 3)] }
+example : okSeq pyStr { objs := [1, 2, 3], names := [("a", 1), ("b", 2), ("c", 3)] }
     [.popIdx 0, .setKey "z" 9, .update [("b", 20), ("y", 8)], .popKey "c", .remove 9, .assign 20] := by
   decide
-example : okSeq { objs := [1, 2, 3], names := [] }
+example : okSeq pyStr { objs := [1, 2, 3], names := [] }
     [.append 4, .insert 0 7, .setIdx (-1) 9, .extend [10, 11], .popIdx (-1), .remove 2, .clear,
      .replaceList [5, 6]] := by
   decide
-example : (step { objs := [1, 2, 3], names := [("a", 1), ("b", 2), ("c", 3)] } (.popIdx 0)).2.ret = some 1 := by
+example : (step pyStr { objs := [1, 2, 3], names := [("a", 1), ("b", 2), ("c", 3)] } (.popIdx 0)).2.ret = some 1 := by
   decide
 
 end ParamVerif.Selector
